@@ -14,7 +14,8 @@ CFG = {
 
 CXX = os.environ.get('VF_CXX', 'g++')
 BASE_FLAGS = ['-std=gnu++17', '-O1', '-ffp-contract=off', '-w']
-ENGINE_SRCS = ['vf_ref.cpp', 'vf_gen.cpp', 'vf_main.cpp']
+ENGINE_SRCS = ['vf_ref.cpp', 'vf_gen.cpp', 'vf_json.cpp', 'vf_main.cpp']
+FUZZ_ENGINE_SRCS = ['vf_ref.cpp', 'vf_gen.cpp', 'vf_json.cpp']   # + vf_fuzz_main.cpp compiled with the target
 NCPU = int(os.environ.get('VF_JOBS', os.cpu_count() or 4))
 
 
@@ -67,13 +68,15 @@ class Ctx:
         return v or 1
 
     # ---- engine library (independent of the repository under test)
-    def engine_lib(self, extra_flags=()):
+    def engine_lib(self, extra_flags=(), cxx=None, src_names=None):
         """extra_flags: ABI-relevant flags of the harness (sanitizers change Eigen's aligned allocator, so the
         engine must be built with the same ones)"""
+        cxx = cxx or CXX
         extra_flags = [f for f in extra_flags if f.startswith('-fsanitize') or f.startswith('-fno-sanitize')]
-        srcs = [os.path.join(self.engine_dir, s) for s in ENGINE_SRCS]
+        extra_flags = [f.replace('fuzzer,', '').replace(',fuzzer', '') for f in extra_flags]   # the engine itself is not a fuzz target
+        srcs = [os.path.join(self.engine_dir, s) for s in (src_names or ENGINE_SRCS)]
         hdrs = glob.glob(os.path.join(self.engine_dir, '*.h'))
-        hh = file_hash(srcs + hdrs, CXX + ' '.join(BASE_FLAGS + extra_flags))
+        hh = file_hash(srcs + hdrs, cxx + ' '.join(BASE_FLAGS + extra_flags))
         d = os.path.join(self.build_root, 'engine-' + hh)
         lib = os.path.join(d, 'libvf.a')
         if os.path.exists(lib):
@@ -85,7 +88,7 @@ class Ctx:
             for s in srcs:
                 o = os.path.join(d, os.path.basename(s)[:-4] + '.o')
                 objs.append(o)
-                cmd = [CXX] + BASE_FLAGS + extra_flags + ['-I/usr/include/eigen3', '-I' + self.engine_dir, '-c', s, '-o', o]
+                cmd = [cxx] + BASE_FLAGS + extra_flags + ['-I/usr/include/eigen3', '-I' + self.engine_dir, '-c', s, '-o', o]
                 futs.append((s, ex.submit(sh, cmd)))
             for s, f in futs:
                 r = f.result()
@@ -302,6 +305,110 @@ def run_rc_stage(ctx, prop, stage, tier, res):
     shutil.rmtree(fragdir, ignore_errors=True)
 
 
+def run_fuzz_stage(ctx, prop, stage, tier, res):
+    """libFuzzer campaign over the byte-decoded generators; same run_case() as the rapidcheck stage"""
+    cxx = 'clang++'
+    if shutil.which(cxx) is None:
+        res['notes'].append('clang++ not available: fuzz stage skipped')
+        return
+    san = ['-fsanitize=fuzzer,address,undefined', '-fno-sanitize-recover=undefined', '-fno-omit-frame-pointer']
+    flags = ['-std=gnu++17', '-O1', '-g', '-ffp-contract=off', '-w'] + stage.get('defs', []) + san
+    src = os.path.join(ctx.root, 'props', stage['src'])
+    fmain = os.path.join(ctx.engine_dir, 'vf_fuzz_main.cpp')
+    t0 = time.time()
+    lib = ctx.engine_lib(san, cxx=cxx, src_names=FUZZ_ENGINE_SRCS)
+    d = ctx.harness_dir([src, fmain], flags + [lib, cxx])
+    secs = stage['seconds'][tier]
+    jobs_per = stage.get('jobs', 1)
+    bins = {}
+
+    def build(cfg):
+        exe = os.path.join(d, 'fuzz_%s_%s%s' % (os.path.basename(src)[:-4], cfg, stage.get('tag', '')))
+        if os.path.exists(exe):
+            return cfg, exe, None
+        cmd = [cxx] + flags + ctx.inc + ['-DVF_CFG=%d' % CFG[cfg], src, fmain, lib, '-o', exe + '.tmp']
+        r = sh(cmd)
+        if r.returncode != 0:
+            logp = exe + '.compile.log'
+            open(logp, 'w').write(' '.join(cmd) + '\n' + r.stdout)
+            return cfg, None, logp
+        os.replace(exe + '.tmp', exe)
+        return cfg, exe, None
+
+    with cf.ThreadPoolExecutor(max_workers=NCPU) as ex:
+        for cfg, exe, logp in ex.map(build, stage['configs']):
+            if exe:
+                bins[cfg] = exe
+            else:
+                dst = os.path.join(ctx.root, 'replays', prop, 'compile-fuzz-%s.log' % cfg)
+                os.makedirs(os.path.dirname(dst), exist_ok=True)
+                shutil.copy(logp, dst)
+                res['violations'].append({'replay': dst, 'why': 'fuzz target for %s does not compile' % cfg})
+    res['build_s'] = res.get('build_s', 0) + time.time() - t0
+    # the rapidcheck binary of the same configuration replays whatever the fuzzer finds (plain function call)
+    rc_stage = dict(stage); rc_stage.pop('tag', None); rc_stage['defs'] = stage.get('defs', [])
+    rc_bins, _ = build_rc_binaries(ctx, prop, {'src': stage['src'], 'configs': list(bins), 'defs': stage.get('defs', []), 'tag': stage.get('rc_tag', '')})
+
+    def run(cfg):
+        work = os.path.join(ctx.build_root, 'fuzz-%s-%s-%d' % (prop, cfg, os.getpid()))
+        shutil.rmtree(work, ignore_errors=True)
+        os.makedirs(os.path.join(work, 'corpus'))
+        seed = ctx.derive_seed(prop, 'fuzz', cfg) % (2 ** 31 - 1) + 1
+        rep = os.path.join(ctx.root, 'replays', prop, 'fuzz-%s-seed%d.json' % (cfg, seed))
+        os.makedirs(os.path.dirname(rep), exist_ok=True)
+        if os.path.exists(rep):
+            os.remove(rep)
+        stats = os.path.join(work, 'stats.json')
+        env = dict(os.environ)
+        env.update({'VF_FUZZ_REPLAY': rep, 'VF_FUZZ_STATS': stats,
+                    'ASAN_OPTIONS': 'hard_rss_limit_mb=4000:detect_leaks=0:allocator_may_return_null=1:abort_on_error=0'})
+        cmd = [bins[cfg], '-seed=%d' % seed, '-max_total_time=%d' % secs, '-max_len=%d' % stage.get('max_len', 4096), '-timeout=%d' % stage.get('unit_timeout', 120),
+               '-rss_limit_mb=4000', '-print_final_stats=1', '-len_control=0', '-artifact_prefix=' + work + '/', '-jobs=%d' % jobs_per, '-workers=%d' % jobs_per, os.path.join(work, 'corpus')]
+        try:
+            r = subprocess.run(cmd, stdout=subprocess.PIPE, stderr=subprocess.STDOUT, text=True, env=env, cwd=work, timeout=secs * 3 + 600)
+            rc, out = r.returncode, r.stdout
+        except subprocess.TimeoutExpired:
+            rc, out = 124, 'timeout'
+        logs = ''
+        for lf in glob.glob(os.path.join(work, 'fuzz-*.log')):
+            logs += open(lf, errors='replace').read()
+        out = out + logs
+        st = None
+        if os.path.exists(stats):
+            try:
+                st = json.load(open(stats))
+            except Exception:
+                st = None
+        crashes = [f for f in glob.glob(os.path.join(work, 'crash-*')) + glob.glob(os.path.join(work, 'leak-*'))]
+        kept = []
+        for cfile in crashes[:3]:
+            dst = os.path.join(ctx.root, 'replays', prop, 'fuzz-%s-%s' % (cfg, os.path.basename(cfile)))
+            shutil.copy(cfile, dst)
+            kept.append(dst)
+        import re as _re
+        m = _re.findall(r'stat::number_of_executed_units:\s*(\d+)', out)
+        execs = sum(int(x) for x in m) if m else (st or {}).get('evaluations', 0)
+        shutil.rmtree(work, ignore_errors=True)
+        return cfg, rc, out, st, kept, rep, execs, seed
+
+    with cf.ThreadPoolExecutor(max_workers=max(1, NCPU // max(1, jobs_per))) as ex:
+        for cfg, rc, out, st, kept, rep, execs, seed in ex.map(run, list(bins)):
+            fr = {'config': cfg, 'tag': '-fuzz', 'evaluations': int(execs), 'distinct_nontrivial': int((st or {}).get('distinct_nontrivial', 0)),
+                  'oracle_inconclusive': int((st or {}).get('oracle_inconclusive', 0)), 'labels': {}, 'max_err_over_tol': {}, 'samples': [],
+                  'seed': seed, 'rule': 'libFuzzer (coverage-guided) byte streams decoded by the stratified generators into the same Case type'}
+            res['frags'].append(fr)
+            if os.path.exists(rep) and rc_bins.get(cfg):
+                ok, last = confirm_violation(rc_bins[cfg], rep, [])
+                if ok:
+                    res['violations'].append({'replay': rep, 'why': 'found by libFuzzer: ' + last})
+                else:
+                    res['notes'].append('fuzz %s: oracle failure did not reproduce through the replay path (%s)' % (cfg, last))
+            elif kept:
+                res['violations'].append({'replay': kept[0], 'why': 'libFuzzer crash (sanitizer / signal) without an oracle verdict: ' + out[-600:].replace('\n', ' | ')})
+            elif rc not in (0, 124):
+                res['notes'].append('fuzz %s: exit status %d without artefact (treated as inconclusive)' % (cfg, rc))
+
+
 def as_list(x):
     if x is None:
         return []
@@ -384,6 +491,8 @@ def main(root, argv):
     ap.add_argument('--configs')
     ap.add_argument('--build-engine', action='store_true')
     ap.add_argument('--cases', type=int)
+    ap.add_argument('--only-kind')
+    ap.add_argument('--seconds', type=int)
     a = ap.parse_args(argv)
     ctx = Ctx(root)
     if a.build_engine:
@@ -414,8 +523,14 @@ def main(root, argv):
         if a.cases and 'cases' in stage:
             stage['cases'] = {a.tier: a.cases}
         kind = stage.get('kind', 'rc')
+        if a.only_kind and kind != a.only_kind:
+            continue
+        if a.seconds and 'seconds' in stage:
+            stage['seconds'] = {a.tier: a.seconds}
         if kind == 'rc':
             run_rc_stage(ctx, a.prop, stage, a.tier, res)
+        elif kind == 'fuzz':
+            run_fuzz_stage(ctx, a.prop, stage, a.tier, res)
         else:
             mod = importlib.import_module(stage['module'])
             getattr(mod, stage['fn'])(ctx, a.prop, stage, a.tier, res)
@@ -446,7 +561,7 @@ def do_replay(ctx, prop, pdef, path):
         print(open(path).read()[-3000:])
         print('(compile / crash log: rebuild with ./check %s to see whether it still fails)' % prop)
         return 1
-    customs = [st for st in pdef['stages'] if st.get('kind', 'rc') != 'rc']
+    customs = [st for st in pdef['stages'] if st.get('kind', 'rc') not in ('rc', 'fuzz')]
     try:
         j = json.load(open(path))
     except Exception:
@@ -463,6 +578,8 @@ def do_replay(ctx, prop, pdef, path):
     cfg, tag = j.get('config'), j.get('tag', '')
     for stage in pdef['stages']:
         kind = stage.get('kind', 'rc')
+        if kind == 'fuzz':
+            continue
         if kind != 'rc':
             mod = importlib.import_module(stage['module'])
             fn = getattr(mod, stage.get('replay_fn', 'replay'), None)
